@@ -84,3 +84,80 @@ pub trait ScratchTakeCore<BE: Backend> {}
 pub trait ScratchAvailable {}
 impl<BE: Backend> ScratchTakeCore<BE> for Scratch<BE> {}
 impl<BE: Backend> ScratchAvailable for Scratch<BE> {}
+
+// ---- HAL operations whose VALUE contract is not proved in Verus (shifts, out-of-place / cross-radix normalisation: bounded Kani harnesses only, C08) ----
+// They enter as uninterpreted but deterministic functions of exactly the declared inputs (radices, shift, the operand column, for the
+// accumulating forms also the previous result column): this is the frame + determinism part of their contract, which is what the GLWE
+// wrappers need; what the function computes is the C08 question.
+pub open spec fn acol(a: VecZnx<&[u8]>, i: int) -> Seq<Seq<i64>> { Seq::new(a.size as nat, |j: int| a.limb(i, j)) }
+pub open spec fn ocol(f: spec_fn(int, int) -> Seq<i64>, i: int, size: int) -> Seq<Seq<i64>> { Seq::new(size as nat, |j: int| f(i, j)) }
+pub uninterp spec fn hal_lsh(base2k: int, k: int, a: Seq<Seq<i64>>, res_size: int, jj: int) -> Seq<i64>;
+pub uninterp spec fn hal_lsh_acc(sub: bool, base2k: int, k: int, old: Seq<Seq<i64>>, a: Seq<Seq<i64>>, jj: int) -> Seq<i64>;
+pub uninterp spec fn hal_lsh_assign(base2k: int, k: int, old: Seq<Seq<i64>>, jj: int) -> Seq<i64>;
+pub uninterp spec fn hal_rsh_assign(base2k: int, k: int, old: Seq<Seq<i64>>, jj: int) -> Seq<i64>;
+pub uninterp spec fn hal_normalize(res_base2k: int, res_offset: int, a_base2k: int, a: Seq<Seq<i64>>, res_size: int, jj: int) -> Seq<i64>;
+pub uninterp spec fn hal_normalize_assign(base2k: int, old: Seq<Seq<i64>>, jj: int) -> Seq<i64>;
+//@def REQ_RA
+        old(res).smut_wf(), a.sref().wf(), a.sref().n == old(res).smut_n(), res_col < old(res).smut_cols(), a_col < a.sref().cols,
+        1 <= base2k <= 62, old(res).smut_n() <= 0x1000_0000
+//@enddef
+pub trait VecZnxLshTmpBytes: ModuleN { fn vec_znx_lsh_tmp_bytes(&self) -> (r: usize) requires self.sn() <= 0x1000_0000 ensures r == self.sn() * 8; }
+pub trait VecZnxRshTmpBytes: ModuleN { fn vec_znx_rsh_tmp_bytes(&self) -> (r: usize) requires self.sn() <= 0x1000_0000 ensures r == 2 * self.sn() * 8; }
+pub trait VecZnxNormalizeTmpBytes: ModuleN { fn vec_znx_normalize_tmp_bytes(&self) -> (r: usize) requires self.sn() <= 0x1000_0000 ensures r == 3 * self.sn() * 8; }
+pub trait VecZnxLsh<BE: Backend> {
+    fn vec_znx_lsh<R: VecZnxToMut, A: VecZnxToRef>(&self, base2k: usize, k: usize, res: &mut R, res_col: usize, a: &A, a_col: usize, scratch: &mut Scratch<BE>)
+    requires $REQ_RA, old(scratch).avail >= old(res).smut_n() * 8,
+    ensures final(scratch).avail == old(scratch).avail,
+        forall|jj: int| 0 <= jj < old(res).smut_size() ==> #[trigger] final(res).smut_limb(res_col as int, jj) == hal_lsh(base2k as int, k as int, acol(a.sref(), a_col as int), old(res).smut_size() as int, jj),
+        $ENS_SHAPE
+    ;
+}
+pub trait VecZnxLshAddInto<BE: Backend> {
+    fn vec_znx_lsh_add_into<R: VecZnxToMut, A: VecZnxToRef>(&self, base2k: usize, k: usize, res: &mut R, res_col: usize, a: &A, a_col: usize, scratch: &mut Scratch<BE>)
+    requires $REQ_RA, old(scratch).avail >= old(res).smut_n() * 8,
+    ensures final(scratch).avail == old(scratch).avail,
+        forall|jj: int| 0 <= jj < old(res).smut_size() ==> #[trigger] final(res).smut_limb(res_col as int, jj) == hal_lsh_acc(false, base2k as int, k as int, ocol(owner_limbs(old(res)), res_col as int, old(res).smut_size() as int), acol(a.sref(), a_col as int), jj),
+        $ENS_SHAPE
+    ;
+}
+pub trait VecZnxLshSub<BE: Backend> {
+    fn vec_znx_lsh_sub<R: VecZnxToMut, A: VecZnxToRef>(&self, base2k: usize, k: usize, res: &mut R, res_col: usize, a: &A, a_col: usize, scratch: &mut Scratch<BE>)
+    requires $REQ_RA, old(scratch).avail >= old(res).smut_n() * 8,
+    ensures final(scratch).avail == old(scratch).avail,
+        forall|jj: int| 0 <= jj < old(res).smut_size() ==> #[trigger] final(res).smut_limb(res_col as int, jj) == hal_lsh_acc(true, base2k as int, k as int, ocol(owner_limbs(old(res)), res_col as int, old(res).smut_size() as int), acol(a.sref(), a_col as int), jj),
+        $ENS_SHAPE
+    ;
+}
+pub trait VecZnxLshAssign<BE: Backend> {
+    fn vec_znx_lsh_assign<R: VecZnxToMut>(&self, base2k: usize, k: usize, res: &mut R, res_col: usize, scratch: &mut Scratch<BE>)
+    requires old(res).smut_wf(), res_col < old(res).smut_cols(), 1 <= base2k <= 62, old(res).smut_n() <= 0x1000_0000, old(scratch).avail >= old(res).smut_n() * 8,
+    ensures final(scratch).avail == old(scratch).avail,
+        forall|jj: int| 0 <= jj < old(res).smut_size() ==> #[trigger] final(res).smut_limb(res_col as int, jj) == hal_lsh_assign(base2k as int, k as int, ocol(owner_limbs(old(res)), res_col as int, old(res).smut_size() as int), jj),
+        $ENS_SHAPE
+    ;
+}
+pub trait VecZnxRshAssign<BE: Backend> {
+    fn vec_znx_rsh_assign<R: VecZnxToMut>(&self, base2k: usize, k: usize, res: &mut R, res_col: usize, scratch: &mut Scratch<BE>)
+    requires old(res).smut_wf(), res_col < old(res).smut_cols(), 1 <= base2k <= 62, old(res).smut_n() <= 0x1000_0000, old(scratch).avail >= 2 * old(res).smut_n() * 8,
+    ensures final(scratch).avail == old(scratch).avail,
+        forall|jj: int| 0 <= jj < old(res).smut_size() ==> #[trigger] final(res).smut_limb(res_col as int, jj) == hal_rsh_assign(base2k as int, k as int, ocol(owner_limbs(old(res)), res_col as int, old(res).smut_size() as int), jj),
+        $ENS_SHAPE
+    ;
+}
+pub trait VecZnxNormalize<BE: Backend> {
+    fn vec_znx_normalize<R: VecZnxToMut, A: VecZnxToRef>(&self, res: &mut R, res_base2k: usize, res_offset: i64, res_col: usize, a: &A, a_base2k: usize, a_col: usize, scratch: &mut Scratch<BE>)
+    requires old(res).smut_wf(), a.sref().wf(), a.sref().n == old(res).smut_n(), res_col < old(res).smut_cols(), a_col < a.sref().cols,
+        1 <= res_base2k <= 62, 1 <= a_base2k <= 62, old(res).smut_n() <= 0x1000_0000, old(scratch).avail >= 3 * old(res).smut_n() * 8,
+    ensures final(scratch).avail == old(scratch).avail,
+        forall|jj: int| 0 <= jj < old(res).smut_size() ==> #[trigger] final(res).smut_limb(res_col as int, jj) == hal_normalize(res_base2k as int, res_offset as int, a_base2k as int, acol(a.sref(), a_col as int), old(res).smut_size() as int, jj),
+        $ENS_SHAPE
+    ;
+}
+pub trait VecZnxNormalizeAssign<BE: Backend> {
+    fn vec_znx_normalize_assign<R: VecZnxToMut>(&self, base2k: usize, res: &mut R, res_col: usize, scratch: &mut Scratch<BE>)
+    requires old(res).smut_wf(), res_col < old(res).smut_cols(), 1 <= base2k <= 62, old(res).smut_n() <= 0x1000_0000, old(scratch).avail >= 3 * old(res).smut_n() * 8,
+    ensures final(scratch).avail == old(scratch).avail,
+        forall|jj: int| 0 <= jj < old(res).smut_size() ==> #[trigger] final(res).smut_limb(res_col as int, jj) == hal_normalize_assign(base2k as int, ocol(owner_limbs(old(res)), res_col as int, old(res).smut_size() as int), jj),
+        $ENS_SHAPE
+    ;
+}
